@@ -3,6 +3,7 @@ package main
 import (
 	"fmt"
 	"math"
+	"sort"
 	"strings"
 
 	"github.com/trajectoryjp/spatial_id_go/v4/common/consts"
@@ -104,9 +105,17 @@ func init() {
 
 	codes := []int{3857, 3857, 3857, 4326, 3395, 32654, 6677, 2451, 25832, 27700, 99999, 0,
 		32600, 32601, 32660, 32661, 32700, 32701, 32760, 32761, 4325, 4327, 3856, 3858} // also the neighbours of supported code ranges
+	allCodes := wgs84.EPSG().Codes() // every code the transform library supports (geocentric 4978, national grids, all UTM zones)
+	sort.Ints(allCodes)
 	register("proj", func(n int) {
 		for i := 0; i < n; i++ {
 			crs := codes[rng.Intn(len(codes))]
+			if rng.Intn(3) == 0 {
+				crs = allCodes[rng.Intn(len(allCodes))]
+				if rng.Intn(4) == 0 {
+					crs = []int{4978, 900913, 4258, 4269}[rng.Intn(4)]
+				}
+			}
 			k := 1 + rng.Intn(5)
 			if rng.Intn(10) == 0 {
 				k = 0
